@@ -331,5 +331,5 @@ def run(ck):
     deflate_buferror(ck, P)
     avoid_spurious_buferror(ck, P)
     from .. import condparity
-    ck.floor("SIB/ref-conditions", condparity.check(ck, P, "SIB/ref-conditions", only={"inflate.c:inflate", "deflate_stored.c:deflate_stored", "deflate.c:deflate"}), 50)
+    ck.floor("SIB/ref-conditions", condparity.check(ck, P, "SIB/ref-conditions", only={"deflate.c:flush_pending", "deflate.c:read_buf", "compress.c:compress2", "uncompr.c:uncompress2", "inflate.c:inflate", "deflate_stored.c:deflate_stored", "deflate.c:deflate"}), 50)
     ck.assumptions += ["rustc MIR", "exception table for functions that assign rather than adjust", "host target; K1"]
